@@ -3,6 +3,7 @@ package props
 import (
 	"go/scanner"
 	"go/token"
+	"net/url"
 	"os"
 	"path/filepath"
 	"regexp"
@@ -131,4 +132,43 @@ func withUnaskedNames(e *env.Env, r *core.Run) {
 	}
 	e.ExtraQuery, e.ExtraHeaders = dictQuery(protocolParams...), dictHeaders()
 	r.Count("cases_with_unasked_parameter_and_header_names", 1)
+}
+
+// dictValues are the entries of the dictionary that look like a value with a meaning in the protocol (URIs: status
+// codes, bindings, formats, algorithms) plus a few switch-like words.
+func dictValues() []string {
+	out := []string{"true", "1", "on", "ok", "success", "Success", "done"}
+	for _, w := range repoDictionary() {
+		if strings.HasPrefix(w, "urn:") || strings.HasPrefix(w, "http://") || strings.HasPrefix(w, "https://") {
+			out = append(out, w)
+		}
+	}
+	return out
+}
+
+// dictQueryWith gives every name of the dictionary the same value.
+func dictQueryWith(value string, skip ...string) string {
+	var b strings.Builder
+next:
+	for _, w := range dictWords() {
+		for _, s := range skip {
+			if strings.EqualFold(s, w) {
+				continue next
+			}
+		}
+		if b.Len() > 0 {
+			b.WriteByte('&')
+		}
+		b.WriteString(w + "=" + url.QueryEscape(value))
+	}
+	return b.String()
+}
+
+// dictHeadersWith gives every header of dictHeaders the same value.
+func dictHeadersWith(value string) map[string]string {
+	out := dictHeaders()
+	for k := range out {
+		out[k] = value
+	}
+	return out
 }
